@@ -11,6 +11,9 @@ CHECKS = {
  'C02': ('bounded-exhaustive enumeration + proptest generators against an independent pushdown recogniser of the event grammar',
          'Same input spaces as C01; pull and push event streams on two back-ends must be a prefix (or, without error, a whole sentence) of the YAML event grammar with the anchor/alias id rules.',
          'Grammar only; the recogniser (harness/src/oracle/grammar.rs) is trusted.', '5 C02'),
+ 'C07': ('model-based: independent reference loader (fold of the event list) compared with the four loaders over bounded-exhaustive and proptest inputs',
+         'Every accepted input of the text spaces (and rendered documents) is folded from its push-interface events by a reference loader and compared document by document with Yaml, YamlOwned, MarkedYaml and MarkedYamlOwned loads; load fails iff the parser fails, same error.',
+         'Scalars are resolved by the library resolver inside the reference fold (the resolver itself is C08); duplicated key position first-or-last (I3).', '5 C07'),
  'C08': ('bounded-exhaustive enumeration over the literal alphabet + proptest templates against a hand-written core-schema matcher (must/may outcomes)',
          'Every string of length <= 4 (quick) / <= 5 (thorough) over the 36 characters that occur in core-schema literals x 16 (style, tag) pairs through the resolver API, every string of length <= 3 / <= 4 x 12 pairs through load_from_str of a rendered document, plus boundary-number and word templates; borrowed vs owned resolvers compared.',
          'f64::from_str is trusted for the value of an accepted float literal; "within 64 bits" read as fits-i64 (I2).', '5 C08'),
